@@ -249,128 +249,462 @@ theorem KeysFrom.keptPart {a : Nat} {l : List (Nat × Nat)} (hk : KeysFrom a l) 
 /-- every packet id allocated so far is in exactly one of: the unacknowledged map, the report log -/
 def pool (s : St) (log : List Out) : List Nat := ids s.unacked ++ reportedIds log
 
-/-- ids allocated by one step -/
-def newIds (s : St) : Op → List Nat
-  | .send _ _ => [s.nextId]
-  | _ => []
+/-- 1 if `p` is an id allocated between `s` and `s'` -/
+def fresh (s s' : St) (p : Nat) : Nat := if s.nextId ≤ p ∧ p < s'.nextId then 1 else 0
 
-theorem step_nextId (s : St) (op : Op) : (step s op).1.nextId = s.nextId + (newIds s op).length := by
-  cases op <;> simp only [step, newIds] <;> (try split) <;> simp
+/-- counting form of one (possibly composite) transition: the ids it allocates occur exactly once
+more among "stored or reported", the ids in `pending` (entries already taken out of the map, to be
+reported by this transition) move into the report log, nothing else changes -/
+structure Eff (s s' : St) (pending : List Nat) (out : List Out) : Prop where
+  mono : s.nextId ≤ s'.nextId
+  cnt : ∀ p, (ids s'.unacked).count p + (reportedIds out).count p
+          = (ids s.unacked).count p + pending.count p + fresh s s' p
 
-theorem step_pool (s : St) (log : List Out) (op : Op) :
-    (pool (step s op).1 (log ++ (step s op).2)).Perm (newIds s op ++ pool s log) := by
-  cases op with
-  | send stanza up =>
-    simp only [step, newIds]
-    split
-    · simp only [pool, reportedIds_append, reportedIds_emit, reportedIds_written, List.append_nil, ids,
-        List.map_append, List.map_cons, List.map_nil, List.singleton_append, List.append_assoc]
-      exact List.perm_middle
-    · simp only [pool, reportedIds_append, reportedIds_emit, reportedIds_report, reportedIds_written,
-        List.nil_append, List.singleton_append]
-      rw [← List.append_assoc]
-      exact List.perm_middle.trans (by simp)
-  | ack h =>
-    simp only [step, newIds, List.nil_append]
-    split
-    · simp only [pool, reportedIds_append, reportedIds_ackReports]
-      rw [← ids_acked_kept h s.unacked]
-      have := (List.perm_append_comm (l₁ := ids (ackedPart h s.unacked))
-        (l₂ := ids (keptPart h s.unacked) ++ reportedIds log)).symm
-      simpa [List.append_assoc] using this
-    · simp [pool]
-  | ackReq up =>
-    simp only [step, newIds, List.nil_append]
-    split <;> simp [pool, reportedIds_append]
-  | recv k =>
-    simp only [step, newIds, List.nil_append]
-    split <;> simp [pool]
-  | sessionClosed => simp [step, newIds, pool]
-  | enabledNew up =>
-    simp only [step, newIds, List.nil_append]
-    split <;> simp [pool, reportedIds_append]
-  | resumeReq up => simp [step, newIds, pool, reportedIds_append]
-  | resumed h up =>
-    simp only [step, newIds, List.nil_append]
-    have e : reportedIds (if (keptPart h s.unacked).isEmpty = true then []
-        else resendOut up (keptPart h s.unacked) ++ reqOut true up) = [] := by
-      split <;> simp [reportedIds_append]
-    simp only [pool, reportedIds_append, reportedIds_ackReports, e, List.append_nil]
-    rw [← ids_acked_kept h s.unacked]
-    have := (List.perm_append_comm (l₁ := ids (ackedPart h s.unacked))
-      (l₂ := ids (keptPart h s.unacked) ++ reportedIds log)).symm
-    simpa [List.append_assoc] using this
-  | resetCache =>
-    simp only [step, newIds, List.nil_append, pool, reportedIds_append, reportedIds_discReports, ids,
-      List.map_nil]
-    exact List.perm_append_comm
+def KeysInv (s : St) : Prop :=
+  ∃ a, 1 ≤ a ∧ KeysFrom a s.unacked ∧ a + s.unacked.length = s.lastOut + 1
 
-structure Inv (s : St) (log : List Out) : Prop where
-  keys : ∃ a, 1 ≤ a ∧ KeysFrom a s.unacked ∧ a + s.unacked.length = s.lastOut + 1
-  nodup : (pool s log).Nodup
-  lt : ∀ p ∈ pool s log, p < s.nextId
-  all : ∀ p, p < s.nextId → p ∈ pool s log
+theorem fresh_self (s s' : St) (p : Nat) (h : s'.nextId = s.nextId) : fresh s s' p = 0 := by
+  unfold fresh; split
+  · omega
+  · rfl
 
-theorem Inv.init : Inv init [] :=
-  ⟨⟨1, Nat.le_refl _, trivial, rfl⟩, by simp [pool, Qx.C09.init, ids], by simp [pool, Qx.C09.init, ids],
-    by simp [Qx.C09.init]⟩
+theorem Eff.same {s s' : St} {out : List Out} (hn : s'.nextId = s.nextId)
+    (hu : ids s'.unacked = ids s.unacked) (hr : reportedIds out = []) : Eff s s' [] out :=
+  ⟨by omega, by intro p; simp [hu, hr, fresh_self s s' p hn]⟩
 
-theorem step_keys (s : St) (op : Op)
-    (h : ∃ a, 1 ≤ a ∧ KeysFrom a s.unacked ∧ a + s.unacked.length = s.lastOut + 1) :
-    ∃ a, 1 ≤ a ∧ KeysFrom a (step s op).1.unacked ∧
-      a + (step s op).1.unacked.length = (step s op).1.lastOut + 1 := by
+theorem sendStep_nextId (s : St) (st up : Bool) : (sendStep s st up).1.nextId = s.nextId + 1 := by
+  unfold sendStep; split <;> rfl
+
+theorem sendStep_eff (s : St) (st up : Bool) : Eff s (sendStep s st up).1 [] (sendStep s st up).2 := by
+  refine ⟨by rw [sendStep_nextId]; omega, ?_⟩
+  intro p
+  have hf : fresh s (sendStep s st up).1 p = if p = s.nextId then 1 else 0 := by
+    unfold fresh; rw [sendStep_nextId]; split <;> split <;> omega
+  rw [hf]
+  unfold sendStep
+  split
+  · simp only [reportedIds_append, reportedIds_emit, reportedIds_written, List.append_nil, ids,
+      List.map_append, List.map_cons, List.map_nil, List.count_append, List.count_nil,
+      List.count_singleton]
+    split <;> simp_all <;> omega
+  · simp only [reportedIds_append, reportedIds_emit, reportedIds_report, reportedIds_written,
+      List.nil_append, List.count_cons, List.count_nil]
+    split <;> simp_all <;> omega
+
+theorem sendStep_keys (s : St) (st up : Bool) (h : KeysInv s) : KeysInv (sendStep s st up).1 := by
   obtain ⟨a, ha, hk, hl⟩ := h
-  cases op with
-  | send stanza up =>
-    simp only [step]
+  unfold sendStep
+  split
+  · refine ⟨a, ha, ?_, by simp only [List.length_append, List.length_singleton]; omega⟩
+    have e : s.lastOut + 1 = a + s.unacked.length := by omega
+    simp only [e]
+    exact hk.append _
+  · exact ⟨a, ha, hk, hl⟩
+
+theorem sendStep_enabled (s : St) (st up : Bool) : (sendStep s st up).1.enabled = s.enabled := by
+  unfold sendStep; split <;> rfl
+theorem sendStep_lastIn (s : St) (st up : Bool) : (sendStep s st up).1.lastIn = s.lastIn := by
+  unfold sendStep; split <;> rfl
+theorem sendStep_lastOut_le (s : St) (st up : Bool) : s.lastOut ≤ (sendStep s st up).1.lastOut := by
+  unfold sendStep; split <;> simp
+
+/-- what `send` does to the map: nothing, or one entry appended under the next number with the new id -/
+theorem sendStep_unacked (s : St) (st up : Bool) :
+    (sendStep s st up).1.unacked = s.unacked ∨
+    ((sendStep s st up).1.unacked = s.unacked ++ [(s.lastOut + 1, s.nextId)] ∧
+      (sendStep s st up).1.lastOut = s.lastOut + 1) := by
+  unfold sendStep; split
+  · exact Or.inr ⟨rfl, rfl⟩
+  · exact Or.inl rfl
+
+/-! #### firing reports with re-entrant continuations -/
+
+theorem fireAcked_mono (re : List Nat) (up : Bool) (l : List (Nat × Nat)) : ∀ s : St,
+    s.nextId ≤ (fireAcked re up s l).1.nextId ∧ s.lastOut ≤ (fireAcked re up s l).1.lastOut ∧
+    (fireAcked re up s l).1.enabled = s.enabled ∧ (fireAcked re up s l).1.lastIn = s.lastIn := by
+  induction l with
+  | nil => intro s; exact ⟨Nat.le_refl _, Nat.le_refl _, rfl, rfl⟩
+  | cons e t ih =>
+    intro s
+    simp only [fireAcked]
     split
-    · refine ⟨a, ha, ?_, by simp only [List.length_append, List.length_singleton]; omega⟩
-      have e : s.lastOut + 1 = a + s.unacked.length := by omega
-      simp only [e]
-      exact hk.append _
-    · exact ⟨a, ha, hk, hl⟩
+    · obtain ⟨h1, h2, h3, h4⟩ := ih (sendStep s true up).1
+      have := sendStep_nextId s true up
+      have := sendStep_lastOut_le s true up
+      exact ⟨by omega, by omega, by rw [h3, sendStep_enabled], by rw [h4, sendStep_lastIn]⟩
+    · exact ih s
+
+theorem fireAcked_eff (re : List Nat) (up : Bool) (l : List (Nat × Nat)) : ∀ s : St,
+    Eff s (fireAcked re up s l).1 (ids l) (fireAcked re up s l).2 := by
+  induction l with
+  | nil => intro s; exact ⟨Nat.le_refl _, by intro p; simp [fireAcked, ids, fresh_self]⟩
+  | cons e t ih =>
+    intro s
+    refine ⟨(fireAcked_mono re up (e :: t) s).1, ?_⟩
+    intro p
+    simp only [fireAcked]
+    split
+    · have h1 := (sendStep_eff s true up).cnt p
+      have h2 := (ih (sendStep s true up).1).cnt p
+      have m1 := (sendStep_eff s true up).mono
+      have m2 := (ih (sendStep s true up).1).mono
+      simp only [reportedIds_report, reportedIds_append, List.count_append, List.count_cons, ids,
+        List.map_cons, List.count_nil, Nat.zero_add] at h1 h2 ⊢
+      unfold fresh at h1 h2 ⊢
+      split at h1 <;> split at h2 <;> split <;> split <;> omega
+    · have h2 := (ih s).cnt p
+      simp only [reportedIds_report, List.nil_append, List.count_cons, ids, List.map_cons] at h2 ⊢
+      split <;> omega
+
+theorem fireAcked_keys (re : List Nat) (up : Bool) (l : List (Nat × Nat)) : ∀ s : St,
+    KeysInv s → KeysInv (fireAcked re up s l).1 := by
+  induction l with
+  | nil => intro s h; exact h
+  | cons e t ih =>
+    intro s h
+    simp only [fireAcked]
+    split
+    · exact ih _ (sendStep_keys s true up h)
+    · exact ih _ h
+
+/-- the continuations only append: entries with numbers beyond `lastOut` and fresh ids -/
+theorem fireAcked_unacked (re : List Nat) (up : Bool) (l : List (Nat × Nat)) : ∀ s : St,
+    ∃ extra, (fireAcked re up s l).1.unacked = s.unacked ++ extra ∧
+      ∀ e ∈ extra, s.lastOut < e.1 ∧ s.nextId ≤ e.2 ∧ e.2 < (fireAcked re up s l).1.nextId := by
+  induction l with
+  | nil => intro s; exact ⟨[], by simp [fireAcked], by simp⟩
+  | cons e t ih =>
+    intro s
+    simp only [fireAcked]
+    split
+    · obtain ⟨extra, h1, h2⟩ := ih (sendStep s true up).1
+      have hn := sendStep_nextId s true up
+      have hm := (fireAcked_mono re up t (sendStep s true up).1).1
+      rcases sendStep_unacked s true up with hu | ⟨hu, hl⟩
+      · refine ⟨extra, by rw [h1, hu], ?_⟩
+        intro x hx
+        have := h2 x hx
+        have := sendStep_lastOut_le s true up
+        omega
+      · refine ⟨(s.lastOut + 1, s.nextId) :: extra, by rw [h1, hu]; simp, ?_⟩
+        intro x hx
+        rcases List.mem_cons.mp hx with hx | hx
+        · subst hx; simp only; omega
+        · have := h2 x hx; omega
+    · exact ih s
+
+theorem fireAcked_pkts (re : List Nat) (up : Bool) (l : List (Nat × Nat)) : ∀ s : St,
+    ∀ p ∈ pktsOf (fireAcked re up s l).2, s.nextId ≤ p ∧ p < (fireAcked re up s l).1.nextId := by
+  induction l with
+  | nil => intro s p hp; simp [fireAcked] at hp
+  | cons e t ih =>
+    intro s p hp
+    simp only [fireAcked] at hp ⊢
+    split at hp
+    · rename_i hc
+      simp only [hc, if_true]
+      have hn := sendStep_nextId s true up
+      have hm := (fireAcked_mono re up t (sendStep s true up).1).1
+      simp only [pktsOf_report, pktsOf_append, List.mem_append] at hp
+      rcases hp with hp | hp
+      · have : p = s.nextId := by
+          unfold sendStep at hp
+          split at hp
+          · simp only [pktsOf_append, pktsOf_emit_pkt, pktsOf_emit_r, pktsOf_written, List.append_nil] at hp
+            split at hp <;> simp at hp
+            exact hp
+          · simp only [pktsOf_append, pktsOf_emit_pkt, pktsOf_report, pktsOf_written, List.append_nil] at hp
+            split at hp <;> simp at hp
+            exact hp
+        omega
+      · have := ih _ p hp; omega
+    · rename_i hc
+      simp only [hc]
+      simp only [pktsOf_report, List.nil_append] at hp
+      exact ih s p hp
+
+theorem sendStep_not_acked (s : St) (st up : Bool) (p : Nat) : Out.report p .acked ∉ (sendStep s st up).2 := by
+  unfold sendStep emit
+  split <;> cases up <;> simp
+
+theorem fireAcked_acked (re : List Nat) (up : Bool) (l : List (Nat × Nat)) : ∀ (s : St) (p : Nat),
+    Out.report p .acked ∈ (fireAcked re up s l).2 → ∃ e ∈ l, e.2 = p := by
+  induction l with
+  | nil => intro s p hp; simp [fireAcked] at hp
+  | cons e t ih =>
+    intro s p hp
+    simp only [fireAcked] at hp
+    rcases List.mem_cons.mp hp with h | h
+    · injection h with h1 _; exact ⟨e, by simp, h1.symm⟩
+    · rcases List.mem_append.mp h with h | h
+      · exfalso
+        split at h
+        · exact sendStep_not_acked _ _ _ _ h
+        · simp at h
+      · obtain ⟨x, hx, hp⟩ := ih _ p h
+        exact ⟨x, by simp [hx], hp⟩
+
+/-- the only things a continuation puts on the wire are a packet and `<r/>` -/
+theorem sendStep_wire (s : St) (st up : Bool) (w : Wire) (h : Out.wire w ∈ (sendStep s st up).2) :
+    (∃ i, w = .pkt i) ∨ w = .r := by
+  unfold sendStep emit at h
+  split at h <;> cases up <;> simp at h
+  · rcases h with h | h
+    · exact Or.inl ⟨_, h⟩
+    · exact Or.inr h
+  · exact Or.inl ⟨_, h⟩
+
+theorem fireAcked_wire (re : List Nat) (up : Bool) (l : List (Nat × Nat)) : ∀ (s : St) (w : Wire),
+    Out.wire w ∈ (fireAcked re up s l).2 → (∃ i, w = .pkt i) ∨ w = .r := by
+  induction l with
+  | nil => intro s w h; simp [fireAcked] at h
+  | cons e t ih =>
+    intro s w h
+    simp only [fireAcked] at h
+    rcases List.mem_cons.mp h with h | h
+    · cases h
+    · rcases List.mem_append.mp h with h | h
+      · split at h
+        · exact sendStep_wire _ _ _ _ h
+        · simp at h
+      · exact ih _ w h
+
+theorem fireAcked_nil (up : Bool) (l : List (Nat × Nat)) (s : St) :
+    fireAcked [] up s l = (s, ackReports l) := by
+  induction l generalizing s with
+  | nil => rfl
+  | cons e t ih => simp [fireAcked, ih, ackReports]
+
+theorem keptPart_idem (h : Nat) (l : List (Nat × Nat)) : keptPart h (keptPart h l) = keptPart h l := by
+  induction l with
+  | nil => rfl
+  | cons x t ih =>
+    by_cases hx : x.1 ≤ h
+    · have e : keptPart h (x :: t) = keptPart h t := by simp [keptPart, hx]
+      rw [e, ih]
+    · have e : keptPart h (x :: t) = x :: t := by simp [keptPart, hx]
+      rw [e, e]
+
+theorem ackedPart_kept (h : Nat) (l : List (Nat × Nat)) : ackedPart h (keptPart h l) = [] := by
+  induction l with
+  | nil => rfl
+  | cons x t ih =>
+    by_cases hx : x.1 ≤ h
+    · have e : keptPart h (x :: t) = keptPart h t := by simp [keptPart, hx]
+      rw [e, ih]
+    · have e : keptPart h (x :: t) = x :: t := by simp [keptPart, hx]
+      rw [e]; simp [ackedPart, hx]
+
+theorem ackPhase_nil (s : St) (h : Nat) (up : Bool) :
+    ackPhase s h [] up =
+      ({ s with unacked := keptPart h s.unacked }, ackReports (ackedPart h s.unacked)) := by
+  simp [ackPhase, fireAcked_nil, keptPart_idem, ackedPart_kept, ackReports]
+
+theorem keysInv_kept (s : St) (h : Nat) (hk : KeysInv s) :
+    KeysInv { s with unacked := keptPart h s.unacked } := by
+  obtain ⟨a, ha, hk, hl⟩ := hk
+  obtain ⟨a', h1, h2, h3⟩ := hk.keptPart h
+  exact ⟨a', by omega, h2, by simp only; omega⟩
+
+theorem ackPhase_keys (s : St) (h : Nat) (re : List Nat) (up : Bool) (hk : KeysInv s) :
+    KeysInv (ackPhase s h re up).1 := by
+  unfold ackPhase
+  exact keysInv_kept _ h (fireAcked_keys re up _ _ (keysInv_kept s h hk))
+
+theorem ackPhase_mono (s : St) (h : Nat) (re : List Nat) (up : Bool) :
+    s.nextId ≤ (ackPhase s h re up).1.nextId ∧ (ackPhase s h re up).1.enabled = s.enabled ∧
+    (ackPhase s h re up).1.lastIn = s.lastIn := by
+  unfold ackPhase
+  obtain ⟨h1, _, h3, h4⟩ := fireAcked_mono re up (ackedPart h s.unacked) { s with unacked := keptPart h s.unacked }
+  exact ⟨h1, h3, h4⟩
+
+theorem ackPhase_eff (s : St) (h : Nat) (re : List Nat) (up : Bool) :
+    Eff s (ackPhase s h re up).1 [] (ackPhase s h re up).2 := by
+  refine ⟨(ackPhase_mono s h re up).1, ?_⟩
+  intro p
+  unfold ackPhase
+  have h1 := (fireAcked_eff re up (ackedPart h s.unacked) { s with unacked := keptPart h s.unacked }).cnt p
+  have h2 := congrArg (List.count p) (ids_acked_kept h s.unacked)
+  have h3 := congrArg (List.count p) (ids_acked_kept h
+    (fireAcked re up { s with unacked := keptPart h s.unacked } (ackedPart h s.unacked)).1.unacked)
+  simp only [List.count_append] at h2 h3
+  simp only [reportedIds_append, reportedIds_ackReports, List.count_append, List.count_nil] at h1 ⊢
+  unfold fresh at h1 ⊢
+  simp only at h1 ⊢
+  split at h1 <;> split <;> omega
+
+/-- entries of the map after the acknowledgement phase: old ones, or appended by a continuation -/
+theorem ackPhase_unacked (s : St) (h : Nat) (re : List Nat) (up : Bool) :
+    ∀ e ∈ (ackPhase s h re up).1.unacked,
+      e ∈ s.unacked ∨ (s.lastOut < e.1 ∧ s.nextId ≤ e.2 ∧ e.2 < (ackPhase s h re up).1.nextId) := by
+  intro e he
+  unfold ackPhase at he ⊢
+  obtain ⟨extra, h1, h2⟩ := fireAcked_unacked re up (ackedPart h s.unacked) { s with unacked := keptPart h s.unacked }
+  have he' := mem_keptPart he
+  rw [h1] at he'
+  rcases List.mem_append.mp he' with h3 | h3
+  · exact Or.inl (mem_keptPart h3)
+  · exact Or.inr (h2 e h3)
+
+theorem ackPhase_pkts (s : St) (h : Nat) (re : List Nat) (up : Bool) :
+    ∀ p ∈ pktsOf (ackPhase s h re up).2, s.nextId ≤ p ∧ p < (ackPhase s h re up).1.nextId := by
+  intro p hp
+  unfold ackPhase at hp ⊢
+  simp only [pktsOf_append, pktsOf_ackReports, List.append_nil] at hp
+  exact fireAcked_pkts re up _ _ p hp
+
+/-- "acknowledged" during the acknowledgement phase: a stored packet with number `≤ h`, or one a
+continuation has just appended (number beyond `lastOut`, still `≤ h`) -/
+theorem ackPhase_acked (s : St) (h : Nat) (re : List Nat) (up : Bool) (p : Nat)
+    (hm : Out.report p .acked ∈ (ackPhase s h re up).2) :
+    ∃ k, k ≤ h ∧ ((k, p) ∈ s.unacked ∨ (s.lastOut < k ∧ s.nextId ≤ p)) := by
+  unfold ackPhase at hm
+  rcases List.mem_append.mp hm with hm | hm
+  · obtain ⟨e, he, hp⟩ := fireAcked_acked re up _ _ p hm
+    have := mem_ackedPart he
+    exact ⟨e.1, this.2, Or.inl (by rw [← hp]; exact this.1)⟩
+  · simp only [ackReports, List.mem_map, Out.report.injEq] at hm
+    obtain ⟨e, he, hp, _⟩ := hm
+    have h1 := mem_ackedPart he
+    obtain ⟨extra, h2, h3⟩ := fireAcked_unacked re up (ackedPart h s.unacked) { s with unacked := keptPart h s.unacked }
+    have h4 := h1.1
+    rw [h2] at h4
+    rcases List.mem_append.mp h4 with h5 | h5
+    · exact ⟨e.1, h1.2, Or.inl (by rw [← hp]; exact mem_keptPart h5)⟩
+    · have := h3 e h5
+      exact ⟨e.1, h1.2, Or.inr ⟨this.1, by rw [← hp]; exact this.2.1⟩⟩
+
+theorem ackPhase_wire (s : St) (h : Nat) (re : List Nat) (up : Bool) (w : Wire)
+    (hm : Out.wire w ∈ (ackPhase s h re up).2) : (∃ i, w = .pkt i) ∨ w = .r := by
+  unfold ackPhase at hm
+  rcases List.mem_append.mp hm with hm | hm
+  · exact fireAcked_wire re up _ _ w hm
+  · simp [ackReports] at hm
+
+/-! #### one step -/
+
+theorem reportedIds_resendBlockOut (up : Bool) (l : List (Nat × Nat)) :
+    reportedIds (if l.isEmpty = true then [] else resendOut up l ++ reqOut true up) = [] := by
+  split <;> simp [reportedIds_append]
+
+theorem step_eff (s : St) (op : Op) : Eff s (step s op).1 [] (step s op).2 := by
+  cases op with
+  | send stanza up => exact sendStep_eff s stanza up
   | ack h =>
     simp only [step]
     split
-    · obtain ⟨a', h1, h2, h3⟩ := hk.keptPart h
-      exact ⟨a', by omega, h2, by simp only; omega⟩
-    · exact ⟨a, ha, hk, hl⟩
-  | ackReq up => exact ⟨a, ha, hk, hl⟩
-  | recv k => simp only [step]; split <;> exact ⟨a, ha, hk, hl⟩
-  | sessionClosed => exact ⟨a, ha, hk, hl⟩
+    · refine ⟨Nat.le_refl _, ?_⟩
+      intro p
+      have h2 := congrArg (List.count p) (ids_acked_kept h s.unacked)
+      simp only [List.count_append] at h2
+      simp only [reportedIds_ackReports, List.count_nil]
+      unfold fresh; simp only
+      split <;> omega
+    · exact Eff.same rfl rfl rfl
+  | ackReq up =>
+    simp only [step]
+    exact Eff.same rfl rfl (by split <;> simp)
+  | recv k =>
+    simp only [step]
+    split <;> exact Eff.same rfl rfl rfl
+  | sessionClosed => exact Eff.same rfl rfl rfl
+  | enabledNew up =>
+    simp only [step]
+    exact Eff.same rfl (by simp) (by split <;> simp [reportedIds_append])
+  | resumeReq up => exact Eff.same rfl rfl (by simp [step])
+  | resumed h up =>
+    simp only [step]
+    refine ⟨Nat.le_refl _, ?_⟩
+    intro p
+    have h2 := congrArg (List.count p) (ids_acked_kept h s.unacked)
+    simp only [List.count_append] at h2
+    simp only [reportedIds_append, reportedIds_ackReports, reportedIds_resendBlockOut, List.append_nil,
+      List.count_nil]
+    unfold fresh; simp only
+    split <;> omega
+  | resetCache =>
+    simp only [step]
+    refine ⟨Nat.le_refl _, ?_⟩
+    intro p
+    unfold fresh
+    simp [reportedIds_discReports, ids]
+    omega
+  | ackRe h re up =>
+    simp only [step]
+    split
+    · exact ackPhase_eff s h re up
+    · exact Eff.same rfl rfl rfl
+  | resumedRe h re up =>
+    simp only [step]
+    have e := ackPhase_eff s h re up
+    refine ⟨e.mono, ?_⟩
+    intro p
+    have := e.cnt p
+    simp only [reportedIds_append, reportedIds_resendBlockOut, List.append_nil] at this ⊢
+    unfold fresh at this ⊢
+    exact this
+  | resumeFailed h => exact Eff.same rfl rfl rfl
+
+theorem step_keys (s : St) (op : Op) (h : KeysInv s) : KeysInv (step s op).1 := by
+  cases op with
+  | send stanza up => exact sendStep_keys s stanza up h
+  | ack h' =>
+    simp only [step]
+    split
+    · exact keysInv_kept s h' h
+    · exact h
+  | ackReq up => exact h
+  | recv k => simp only [step]; split <;> exact h
+  | sessionClosed => exact h
   | enabledNew up =>
     exact ⟨1, Nat.le_refl _, renumber_keysFrom 0 _, by simp [step]; omega⟩
-  | resumeReq up => exact ⟨a, ha, hk, hl⟩
-  | resumed h up =>
-    obtain ⟨a', h1, h2, h3⟩ := hk.keptPart h
-    exact ⟨a', by omega, h2, by simp only [step]; omega⟩
+  | resumeReq up => exact h
+  | resumed h' up => exact keysInv_kept s h' h
   | resetCache =>
     exact ⟨s.lastOut + 1, by omega, trivial, by simp [step]⟩
+  | ackRe h' re up =>
+    simp only [step]
+    split
+    · exact ackPhase_keys s h' re up h
+    · exact h
+  | resumedRe h' re up => exact ackPhase_keys s h' re up h
+  | resumeFailed h' => exact h
+
+structure Inv (s : St) (log : List Out) : Prop where
+  keys : KeysInv s
+  cnt : ∀ p, (pool s log).count p = if p < s.nextId then 1 else 0
+
+theorem Inv.nodup {s : St} {log : List Out} (h : Inv s log) : (pool s log).Nodup := by
+  apply List.nodup_iff_count.mpr
+  intro p; rw [h.cnt]; split <;> omega
+
+theorem Inv.lt {s : St} {log : List Out} (h : Inv s log) : ∀ p ∈ pool s log, p < s.nextId := by
+  intro p hm
+  have h1 := List.count_pos_iff.mpr hm
+  rw [h.cnt] at h1
+  split at h1
+  · assumption
+  · omega
+
+theorem Inv.all {s : St} {log : List Out} (h : Inv s log) : ∀ p, p < s.nextId → p ∈ pool s log := by
+  intro p hp
+  apply List.count_pos_iff.mp
+  rw [h.cnt]; simp [hp]
+
+theorem Inv.init : Inv init [] :=
+  ⟨⟨1, Nat.le_refl _, trivial, rfl⟩, by intro p; simp [pool, Qx.C09.init, ids]⟩
 
 theorem Inv.step {s : St} {log : List Out} (h : Inv s log) (op : Op) :
     Inv (step s op).1 (log ++ (step s op).2) := by
-  have hp := step_pool s log op
-  have hn := step_nextId s op
-  refine ⟨step_keys s op h.keys, ?_, ?_, ?_⟩
-  · refine hp.symm.nodup ?_
-    cases op <;> simp only [newIds, List.nil_append] <;> try exact h.nodup
-    simp only [List.singleton_append, List.nodup_cons]
-    exact ⟨fun hm => Nat.lt_irrefl _ (h.lt _ hm), h.nodup⟩
-  · intro p hm
-    have hm' := hp.mem_iff.mp hm
-    rw [hn]
-    rcases List.mem_append.mp hm' with h1 | h1
-    · cases op <;> simp only [newIds, List.mem_singleton, List.not_mem_nil] at h1
-      subst h1; simp [newIds]
-    · have := h.lt p h1; omega
-  · intro p hlt
-    rw [hn] at hlt
-    apply hp.mem_iff.mpr
-    apply List.mem_append.mpr
-    by_cases hp' : p < s.nextId
-    · exact Or.inr (h.all p hp')
-    · left
-      cases op <;> simp only [newIds, List.length_nil, List.length_singleton, List.mem_singleton] at hlt ⊢ <;> omega
+  refine ⟨step_keys s op h.keys, ?_⟩
+  intro p
+  have e := step_eff s op
+  have h1 := e.cnt p
+  have h2 := h.cnt p
+  have h3 := e.mono
+  simp only [pool, reportedIds_append, List.count_append, List.count_nil] at h1 h2 ⊢
+  unfold fresh at h1
+  split at h1 <;> split at h2 <;> split <;> omega
 
 theorem Inv.run {s : St} {log : List Out} (h : Inv s log) (ops : List Op) :
     Inv (run s ops).1 (log ++ (run s ops).2) := by
@@ -388,19 +722,26 @@ theorem Inv.reachable (ops : List Op) :
 
 /-! ### what may appear on the wire -/
 
+theorem sendStep_pkts (s : St) (st up : Bool) : ∀ p ∈ pktsOf (sendStep s st up).2, p = s.nextId := by
+  intro p hp
+  unfold sendStep at hp
+  split at hp
+  · simp only [pktsOf_append, pktsOf_emit_pkt, pktsOf_emit_r, pktsOf_written, List.append_nil] at hp
+    split at hp <;> simp at hp
+    exact hp
+  · simp only [pktsOf_append, pktsOf_emit_pkt, pktsOf_report, pktsOf_written, List.append_nil] at hp
+    split at hp <;> simp at hp
+    exact hp
+
+/-- what a step writes is either a stored packet or one it has just created -/
 theorem step_pkts (s : St) (op : Op) :
-    ∀ p ∈ pktsOf (step s op).2, p ∈ ids s.unacked ∨ p = s.nextId := by
+    ∀ p ∈ pktsOf (step s op).2, p ∈ ids s.unacked ∨ (s.nextId ≤ p ∧ p < (step s op).1.nextId) := by
   intro p hp
   cases op with
   | send stanza up =>
-    simp only [step] at hp
-    split at hp
-    · simp only [pktsOf_append, pktsOf_emit_pkt, pktsOf_emit_r, pktsOf_written, List.append_nil] at hp
-      split at hp <;> simp at hp
-      exact Or.inr hp
-    · simp only [pktsOf_append, pktsOf_emit_pkt, pktsOf_report, pktsOf_written, List.append_nil] at hp
-      split at hp <;> simp at hp
-      exact Or.inr hp
+    have := sendStep_pkts s stanza up p hp
+    have hn := sendStep_nextId s stanza up
+    right; simp only [step]; omega
   | ack h =>
     simp only [step] at hp
     split at hp <;> simp at hp
@@ -432,6 +773,28 @@ theorem step_pkts (s : St) (op : Op) :
   | resetCache =>
     simp only [step, pktsOf_discReports] at hp
     simp at hp
+  | ackRe h re up =>
+    simp only [step] at hp ⊢
+    split at hp
+    · rename_i he
+      simp only [he, if_true]
+      exact Or.inr (ackPhase_pkts s h re up p hp)
+    · simp at hp
+  | resumedRe h re up =>
+    simp only [step, pktsOf_append] at hp ⊢
+    rcases List.mem_append.mp hp with hp | hp
+    · exact Or.inr (ackPhase_pkts s h re up p hp)
+    · split at hp
+      · simp at hp
+      · simp only [pktsOf_append, pktsOf_resendOut, pktsOf_reqOut, List.append_nil] at hp
+        split at hp
+        · simp only [ids, List.mem_map] at hp
+          obtain ⟨e, he, hpe⟩ := hp
+          rcases ackPhase_unacked s h re up e he with h1 | h1
+          · left; simp only [ids, List.mem_map]; exact ⟨e, h1, hpe⟩
+          · right; rw [← hpe]; exact ⟨h1.2.1, h1.2.2⟩
+        · simp at hp
+  | resumeFailed h => simp [step] at hp
 
 /-- a packet that has a report is never put on the wire again, whatever happens next -/
 theorem run_pkts_not_reported (ops : List Op) : ∀ (s : St) (log : List Out), Inv s log →
@@ -472,25 +835,13 @@ theorem not_acked_mem_reqOut (p e up) : Out.report p .acked ∉ reqOut e up := b
   · simp
 
 /-- one step reports "acknowledged" only while processing `<a h/>` (stream management on) or
-`<resumed h/>`, and only for a stored packet whose number is `≤ h` -/
+`<resumed h/>`, and only for a packet whose number is `≤ h`: one that was stored, or — with re-entrant
+continuations and `h` beyond the last number used — one a continuation has just sent -/
 theorem step_acked (s : St) (op : Op) (p : Nat) (hm : Out.report p .acked ∈ (step s op).2) :
-    ∃ h k, ((op = .ack h ∧ s.enabled = true) ∨ ∃ up, op = .resumed h up) ∧
-      (k, p) ∈ s.unacked ∧ k ≤ h := by
+    ∃ h k, op.ackH = some h ∧ (op.isA = true → s.enabled = true) ∧ k ≤ h ∧
+      ((k, p) ∈ s.unacked ∨ (s.lastOut < k ∧ s.nextId ≤ p)) := by
   cases op with
-  | send stanza up =>
-    exfalso
-    simp only [step] at hm
-    split at hm
-    · simp only [List.mem_append, List.mem_singleton] at hm
-      rcases hm with (h | h) | h
-      · exact not_acked_mem_emit _ _ _ h
-      · exact not_acked_mem_emit _ _ _ h
-      · cases h
-    · simp only [List.mem_append, List.mem_cons, List.not_mem_nil, or_false] at hm
-      rcases hm with h | h | h
-      · exact not_acked_mem_emit _ _ _ h
-      · injection h with h1 h2; split at h2 <;> cases h2
-      · cases h
+  | send stanza up => exact absurd hm (sendStep_not_acked s stanza up p)
   | ack h =>
     simp only [step] at hm
     split at hm
@@ -498,7 +849,7 @@ theorem step_acked (s : St) (op : Op) (p : Nat) (hm : Out.report p .acked ∈ (s
       simp only [ackReports, List.mem_map, Out.report.injEq] at hm
       obtain ⟨e, he, h1, _⟩ := hm
       have := mem_ackedPart he
-      exact ⟨h, e.1, Or.inl ⟨rfl, hen⟩, by rw [← h1]; exact this.1, this.2⟩
+      exact ⟨h, e.1, rfl, fun _ => hen, this.2, Or.inl (by rw [← h1]; exact this.1)⟩
     · simp at hm
   | ackReq up =>
     exfalso
@@ -526,7 +877,7 @@ theorem step_acked (s : St) (op : Op) (p : Nat) (hm : Out.report p .acked ∈ (s
     · simp only [ackReports, List.mem_map, Out.report.injEq] at hm
       obtain ⟨e, he, h1, _⟩ := hm
       have := mem_ackedPart he
-      exact ⟨h, e.1, Or.inr ⟨up, rfl⟩, by rw [← h1]; exact this.1, this.2⟩
+      exact ⟨h, e.1, rfl, by simp [Op.isA], this.2, Or.inl (by rw [← h1]; exact this.1)⟩
     · exfalso
       split at hm
       · simp at hm
@@ -536,6 +887,25 @@ theorem step_acked (s : St) (op : Op) (p : Nat) (hm : Out.report p .acked ∈ (s
   | resetCache =>
     exfalso
     simp [step] at hm
+  | ackRe h re up =>
+    simp only [step] at hm
+    split at hm
+    · rename_i hen
+      obtain ⟨k, h1, h2⟩ := ackPhase_acked s h re up p hm
+      exact ⟨h, k, rfl, fun _ => hen, h1, h2⟩
+    · simp at hm
+  | resumedRe h re up =>
+    simp only [step] at hm
+    rcases List.mem_append.mp hm with hm | hm
+    · obtain ⟨k, h1, h2⟩ := ackPhase_acked s h re up p hm
+      exact ⟨h, k, rfl, by simp [Op.isA], h1, h2⟩
+    · exfalso
+      split at hm
+      · simp at hm
+      · rcases List.mem_append.mp hm with h | h
+        · exact not_acked_mem_resend _ _ _ h
+        · exact not_acked_mem_reqOut _ _ _ h
+  | resumeFailed h => simp [step] at hm
 
 /-! ### the inbound counter -/
 
@@ -544,7 +914,8 @@ theorem step_sessionCount (s : St) (c : Bool × Nat) (op : Op)
     (sessionCountStep c op).1 = (step s op).1.enabled ∧
       (step s op).1.lastIn = (sessionCountStep c op).2 := by
   cases op with
-  | send stanza up => simp only [step, sessionCountStep]; split <;> exact ⟨h1, h2⟩
+  | send stanza up =>
+    simp only [step, sessionCountStep, sendStep_enabled, sendStep_lastIn]; exact ⟨h1, h2⟩
   | ack h => simp only [step, sessionCountStep]; split <;> exact ⟨h1, h2⟩
   | ackReq up => exact ⟨h1, h2⟩
   | recv k =>
@@ -558,6 +929,17 @@ theorem step_sessionCount (s : St) (c : Bool × Nat) (op : Op)
   | resumeReq up => exact ⟨h1, h2⟩
   | resumed h up => exact ⟨rfl, h2⟩
   | resetCache => exact ⟨h1, h2⟩
+  | ackRe h re up =>
+    simp only [step, sessionCountStep]
+    split
+    · have := ackPhase_mono s h re up
+      exact ⟨by rw [this.2.1]; exact h1, by rw [this.2.2]; exact h2⟩
+    · exact ⟨h1, h2⟩
+  | resumedRe h re up =>
+    simp only [step, sessionCountStep]
+    have := ackPhase_mono s h re up
+    exact ⟨rfl, by rw [this.2.2]; exact h2⟩
+  | resumeFailed h => exact ⟨h1, h2⟩
 
 theorem run_sessionCount (ops : List Op) : ∀ (s : St) (c : Bool × Nat),
     c.1 = s.enabled → s.lastIn = c.2 →
@@ -572,12 +954,23 @@ theorem run_sessionCount (ops : List Op) : ∀ (s : St) (c : Bool × Nat),
 
 /-! ### what a step puts on the wire that carries a counter -/
 
+theorem resendBlockOut_wire (up : Bool) (l : List (Nat × Nat)) (w : Wire)
+    (hm : Out.wire w ∈ (if l.isEmpty = true then [] else resendOut up l ++ reqOut true up)) :
+    (∃ i, w = .pkt i) ∨ w = .r := by
+  split at hm
+  · simp at hm
+  · simp only [resendOut, reqOut, emit, List.mem_append, List.mem_flatMap] at hm
+    rcases hm with ⟨e, _, hm⟩ | hm
+    · cases up <;> simp at hm
+      exact Or.inl ⟨_, hm⟩
+    · cases up <;> simp at hm
+      exact Or.inr hm
+
 theorem step_wire_a (s : St) (op : Op) (k : Nat) (hm : Out.wire (.a k) ∈ (step s op).2) :
     k = s.lastIn ∧ s.enabled = true ∧ op = .ackReq true := by
   cases op with
   | send stanza up =>
-    simp only [step, emit] at hm
-    split at hm <;> cases up <;> simp at hm
+    rcases sendStep_wire s stanza up _ hm with ⟨i, h⟩ | h <;> cases h
   | ack h => simp only [step, ackReports] at hm; split at hm <;> simp at hm
   | ackReq up =>
     simp only [step, emit] at hm
@@ -598,13 +991,23 @@ theorem step_wire_a (s : St) (op : Op) (k : Nat) (hm : Out.wire (.a k) ∈ (step
     · simp at hm
     · split at hm <;> cases up <;> simp at hm
   | resetCache => simp [step] at hm
+  | ackRe h re up =>
+    simp only [step] at hm
+    split at hm
+    · rcases ackPhase_wire s h re up _ hm with ⟨i, h⟩ | h <;> cases h
+    · simp at hm
+  | resumedRe h re up =>
+    simp only [step] at hm
+    rcases List.mem_append.mp hm with hm | hm
+    · rcases ackPhase_wire s h re up _ hm with ⟨i, h⟩ | h <;> cases h
+    · rcases resendBlockOut_wire up _ _ hm with ⟨i, h⟩ | h <;> cases h
+  | resumeFailed h => simp [step] at hm
 
 theorem step_wire_resume (s : St) (op : Op) (k : Nat) (hm : Out.wire (.resume k) ∈ (step s op).2) :
     k = s.lastIn ∧ op = .resumeReq true := by
   cases op with
   | send stanza up =>
-    simp only [step, emit] at hm
-    split at hm <;> cases up <;> simp at hm
+    rcases sendStep_wire s stanza up _ hm with ⟨i, h⟩ | h <;> cases h
   | ack h => simp only [step, ackReports] at hm; split at hm <;> simp at hm
   | ackReq up =>
     simp only [step, emit] at hm
@@ -624,6 +1027,25 @@ theorem step_wire_resume (s : St) (op : Op) (k : Nat) (hm : Out.wire (.resume k)
     · simp at hm
     · split at hm <;> cases up <;> simp at hm
   | resetCache => simp [step] at hm
+  | ackRe h re up =>
+    simp only [step] at hm
+    split at hm
+    · rcases ackPhase_wire s h re up _ hm with ⟨i, h⟩ | h <;> cases h
+    · simp at hm
+  | resumedRe h re up =>
+    simp only [step] at hm
+    rcases List.mem_append.mp hm with hm | hm
+    · rcases ackPhase_wire s h re up _ hm with ⟨i, h⟩ | h <;> cases h
+    · rcases resendBlockOut_wire up _ _ hm with ⟨i, h⟩ | h <;> cases h
+  | resumeFailed h => simp [step] at hm
+
+/-- without re-entrant continuations the new operations are the old ones -/
+theorem step_ackRe_nil (s : St) (h : Nat) (up : Bool) : step s (.ackRe h [] up) = step s (.ack h) := by
+  simp only [step, ackPhase_nil]
+
+theorem step_resumedRe_nil (s : St) (h : Nat) (up : Bool) :
+    step s (.resumedRe h [] up) = step s (.resumed h up) := by
+  simp only [step, ackPhase_nil]
 
 /-! ### renumbering -/
 
